@@ -355,6 +355,9 @@ def run(ctx, rep):
     # number of owners - wherever it was broken - falsifies the sole-owner verdict these functions act on)
     balance.rule_bal(ctx, rep)
     balance.rule_unw(ctx, rep)
+    from . import c12 as _c12
+
+    _c12.union_dispatch(ctx, rep)  # ... including owners held by an ArcUnion: they are counted on the block of the Arc they were made from
     from . import c03
 
     c03.rule_gate_def(ctx, rep)  # the schedule clause rests on the Acquire gate (and on C02's Release decrement)
